@@ -8,7 +8,7 @@ package chain
 func AlphaPayments(w *World) []Action {
 	return []Action{
 		V1Pay(false, 1), V1Pay(true, 2), V1Chain(),
-		V2Pay(AddrV2, true, 2), V2Pay(AddrV1, false, 1), V2Pay(AddrACS, true, 1), V2Chain(AddrV2), V2Chain(AddrACS),
+		V2Pay(AddrV2, true, 2), V2Pay(AddrV1, false, 1), V2Pay(AddrACS, true, 1), V2Pay(AddrThresh, true, 2), V2Chain(AddrV2), V2Chain(AddrACS),
 	}
 }
 
